@@ -28,13 +28,14 @@ ASSUMPTIONS = [
     "canonical state drops _timestep (no method reads it before overwriting it) and event identities (heap behaviour depends on (ts,precedence) only)",
     "bounded depth: behaviours needing longer operation sequences are outside the guarantee",
     "third shape ('ident'): every add sequence of length 4 (thorough 5) over timestamps {0,1} x {unplug, plug-in} x two sessions (+recompute), optional JSON dump, drained by get_event / get_current_events",
+    "fifth shape ('deep'): 12 (thorough 16) pending events inserted in every order of a declared family (rotations of ascending/descending, riffles, outside-in, one irregular order), then get_current_events(t) for every t, a late insertion, and a complete drain",
     "fourth shape: as 'ident' with a recompute event whose precedence attribute was set to -1 by its owner (ranks before unplugs; must survive the JSON round trip)",
     "second shape ('fill'): every add sequence of length 6 (thorough 7) over timestamps {0,1} x kinds, optional JSON dump, then a complete drain with get_event on original and restored queue",
 ]
 CHUNK = 8
 
 KINDS = ("U", "P", "R")
-PREC = {"U": 0, "P": 10, "R": 20, "X": -1}  # the documented order: unplug < plug-in < recompute; X = a recompute request whose owner set its precedence to -1
+PREC = {"U": 0, "P": 10, "R": 20, "X": -1, "Y": 5}  # the documented order: unplug < plug-in < recompute; X = a recompute request whose owner set its precedence to -1
 TYPE2KIND = {"Unplug": "U", "Plugin": "P", "Recompute": "R"}
 
 _uid = [0]
@@ -69,6 +70,12 @@ def mk_event(ts, kind, who=None):
         e = RecomputeEvent(ts)
         e.precedence = -1  # precedence is a public attribute of an event; the queue orders by it
         return e
+    if kind == "Y":
+        # a plug-in whose owner gave it precedence 5 (before ordinary plug-ins); its session id sorts AFTER theirs
+        ev = EV(ts, ts + 3, 5.0, "PS-9", "zz-%d" % _uid[0], Battery(10, 0, 7))
+        e = PluginEvent(ts, ev)
+        e.precedence = 5
+        return e
     if who is not None:
         # events of a small pool of sessions: the same session may have its plug-in and its unplug pending at one
         # timestamp, and session order is the reverse of station order (ordering must not look at either)
@@ -83,6 +90,8 @@ def key(e):
     k = TYPE2KIND.get(e.event_type, "?")
     if k == "R" and e.precedence == -1:
         k = "X"
+    if k == "P" and e.precedence == 5:
+        k = "Y"
     if hasattr(e, "ev"):
         return (e.timestamp, k, e.ev.session_id)
     return (e.timestamp, k, None)
@@ -286,7 +295,7 @@ def run_fill(item):
     return acc
 
 
-USERPREC = [(ts, k, None) for ts in (0, 1) for k in ("X", "U", "P", "R")]
+USERPREC = [(ts, k, None) for ts in (0, 1) for k in ("X", "U", "P", "R", "Y")]
 IDENT = [(ts, k, who) for ts in (0, 1) for k in ("U", "P") for who in (0, 1)] + [(0, "R", None), (1, "R", None)]
 
 
@@ -320,6 +329,68 @@ def run_ident(item):
     return acc
 
 
+DEEP_N = 12
+
+
+def deep_orders(n):
+    """a declared family of insertion orders of n distinct timestamps 1..n (far beyond the BFS depth): ascending,
+    descending, every rotation of both, riffles (odd positions then even ones, and the reverse), outside-in and inside-out"""
+    asc = list(range(1, n + 1))
+    fam = []
+    for base in (asc, asc[::-1]):
+        for r in range(n):
+            fam.append(base[r:] + base[:r])
+    fam.append(asc[0::2] + asc[1::2])
+    fam.append(asc[1::2] + asc[0::2])
+    fam.append((asc[0::2] + asc[1::2])[::-1])
+    oi = []
+    lo, hi = 0, n - 1
+    while lo <= hi:
+        oi.append(asc[lo])
+        if hi != lo:
+            oi.append(asc[hi])
+        lo, hi = lo + 1, hi - 1
+    fam.append(oi)
+    fam.append(oi[::-1])
+    fam.append([39, 11, 7, 18, 29, 12, 25, 28, 4, 5, 16, 33][:n])
+    out = []
+    for f in fam:
+        if f not in out:
+            out.append(f)
+    return out
+
+
+def run_deep(item):
+    """fifth exploration shape: queues of a dozen pending events. Every order of the declared family is inserted, then
+    for EVERY threshold t: get_current_events(t), one more insertion below and one above what is left, and a complete
+    drain alternating get_event / get_current_events - each step against the sorted-list model"""
+    acc = Acc()
+    n = item["n"]
+    orders = deep_orders(n)
+    order = orders[item["order"]]
+    kinds = "UPR"
+    for t in sorted(set(order)) + [0, max(order) + 1]:
+        for late in (None, t + 1, max(t - 1, 0)):
+            ops = [["add", ts, kinds[i % 3]] for i, ts in enumerate(order)]
+            ops.append(["cur", t])
+            if late is not None:
+                ops.append(["add", late, "P"])
+            rest = [ts for ts in order if ts > t]
+            ops += [["get"]] * min(3, len(rest) + (1 if late is not None else 0))
+            ops.append(["cur", t + 3])
+            ops += [["get"]] * n
+            st, viol = exec_ops(ops)
+            acc.transitions += len(ops)
+            for sig, what, obs, exp in viol:
+                acc.violation(sig, what, {"ops": ops}, obs, exp)
+            acc.outcome(("deep", 0 if st is None else len(st.model)))
+    acc.state(("deep", tuple(order)))
+    acc.nt(("deep", tuple(order)))
+    acc.evals += acc.transitions
+    acc.sample({"deep_fill": order, "then": "get_current_events(t) for every t, late insertions, complete drain"}, cap=1)
+    return acc
+
+
 def space(tier, seed):
     """Parent-side BFS to split_depth; the de-duplicated frontier histories are the work items."""
     b = bounds(tier, seed)
@@ -334,6 +405,10 @@ def space(tier, seed):
         items.append({"fill": True, "n": n, "firsts": [f], "tier": tier})
     for f in range(len(IDENT)):
         items.append({"ident": True, "n": 4 if tier == "quick" else 5, "first": f, "tier": tier})
+    # fifth shape: a dozen pending events (thorough: 16), inserted in every order of a declared family
+    nd = DEEP_N if tier == "quick" else 16
+    for oi in range(len(deep_orders(nd))):
+        items.append({"deep": True, "n": nd, "order": oi, "tier": tier})
     # fourth shape: a recompute request with a user-set precedence among ordinary events (same drains, JSON twin)
     for f in range(len(USERPREC)):
         items.append({"ident": True, "pool": "userprec", "n": 4 if tier == "quick" else 5, "first": f, "tier": tier})
@@ -345,6 +420,8 @@ def run(item):
         return run_fill(item)
     if item.get("ident"):
         return run_ident(item)
+    if item.get("deep"):
+        return run_deep(item)
     acc = Acc()
     b = bounds(item["tier"], 0)
     ops = alphabet(b)
